@@ -173,7 +173,9 @@ def edge_candidates(x, is_lat):
 def rect_candidates(rect):
     la0, lo0, la1, lo1 = rect
     c = [edge_candidates(la0, True), edge_candidates(lo0, False), edge_candidates(la1, True), edge_candidates(lo1, False)]
-    return list(itertools.product(*c))
+    out = list(itertools.product(*c))
+    # a snapped variant that degenerates (min >= max) is not a rectangle any more
+    return [out[0]] + [q for q in out[1:] if q[0] < q[2] and q[1] < q[3]]
 
 
 def case_of(op, rect, **kw):
